@@ -30,6 +30,8 @@ func init() {
 			ruleRotate(r)
 			ruleWalDirAfterFlush(r)
 			ruleReaderErrflow(r)
+			ruleFreshWalDir(r)
+			ruleWalReclaim(r)
 		})
 	register("C07",
 		"Static ordering rules for the WAL: sync append = write + flush + fsync before a nil return (must-pass-through on the CFG), AppendSync uses the fsyncing writer call, rotation closes the old file before creating the next, size check precedes each write, replay sorts the fixed-width file names before reading, and replay classifies every truncation-class reader error as end of log (E-TORN). Decides the orderings on all paths; sequence equality and crash-point enumeration are not decided.",
@@ -42,6 +44,7 @@ func init() {
 			ruleNames(r, []string{"wal-format", "sorted-replay"})
 			ruleWalErrflow(r)
 			ruleReaderErrflow(r)
+			ruleNoGlob(r)
 		})
 	register("C10",
 		"Static rules for recovery: the WAL directory is removed only after the replayed memstore's table was flushed (or nothing was replayed); every destructive primitive on the path from Open is idempotent or constant-guarded off that path; the rename target is cleared first and later removals exclude it; a second Open accepts what a killed first Open can leave (E-TORN, partial-table). Decides these shapes on all paths; equality of outcomes over nested crash points is not decided.",
@@ -56,6 +59,8 @@ func init() {
 			ruleTableBeforeWalRemove(r)
 			ruleRotate(r)
 			ruleReaderErrflow(r)
+			ruleFreshWalDir(r)
+			ruleNoGlob(r)
 		})
 	register("C13",
 		"Static rules for the asynchronous WAL: the buffered append exists only under the option (control dependence), rotation closes (flushes) the old WAL file before the memstore is handed to the flusher, FileWriter.Close flushes before closing, and replay treats an incomplete final record as end of log (E-TORN). Decides these shapes; the prefix property over crash points is not decided.",
@@ -68,11 +73,16 @@ func init() {
 			ruleApplyBeforeRotate(r)
 			ruleReaderErrflow(r)
 			ruleHeaderAtOpen(r)
+			ruleFreshWalDir(r)
+			ruleWalReclaim(r)
 		})
 }
 
 // the flush path's error discipline (shared with C11): "returned nil" implies "files flushed, metadata written"
 func ruleFlushErrflow(r *Report) {
+	if _, done := r.RuleText["write-count"]; !done {
+		ruleWriteCount(r)
+	}
 	r.Rule("flush-errflow", 10, "on the flush path (flushMemstore, stream writer Open/WriteNext/Close, FileWriter Write/Close) no error is dropped or turned into success, so a nil result implies a complete table")
 	ef := newErrflow(r, "flush-errflow")
 	for _, k := range []string{"memstore.flushMemstore", "sstables.SSTableStreamWriter.Close", "sstables.SSTableStreamWriter.WriteNext", "sstables.SSTableStreamWriter.Open",
